@@ -96,22 +96,26 @@ def tlc(module, cfg, wd, workers=1, simulate=None, tlc_seed=None, env=None, time
     e['JAVA_TOOL_OPTIONS'] = jopts
     if env:
         e.update(env)
+    t0 = time.time()
     r = subprocess.run(cmd, cwd=SPEC, env=e, capture_output=True, text=True)
+    wall = round(time.time() - t0, 1)
     shutil.rmtree(meta, ignore_errors=True)
     out = r.stdout
     gen = dist = 0
     m = None
-    for m in _STATS.finditer(out):
+    # statistics are in TLC's own lines; the case lines printed by the spec (long digit/comma runs) are kept away from the regex
+    own = '\n'.join(l for l in out.splitlines() if not l.startswith('"'))
+    for m in _STATS.finditer(own):
         pass
     if m:
         gen, dist = int(m.group(1).replace(',', '')), int(m.group(2).replace(',', ''))
     else:
-        m = _SIM.search(out)
+        m = _SIM.search(own)
         if m:
             gen = dist = int(m.group(1).replace(',', ''))
     if r.returncode == 124:
         raise ToolError(f'TLC timeout on {module}/{cfg}')
-    return {'rc': r.returncode, 'out': out, 'generated': gen, 'distinct': dist}
+    return {'rc': r.returncode, 'out': out, 'generated': gen, 'distinct': dist, 'wall_s': wall}
 
 
 def tlc_ok(res):
@@ -163,10 +167,16 @@ class Run:
         self.wd = workdir(prop, tier)
         self._known = load_known()
 
+    def phase(self, name):
+        """wall time per phase of a check (goes into the evidence)"""
+        now = time.time()
+        self.cov.setdefault('phase_s', {})[name] = round(now - getattr(self, '_tp', self.t0), 1)
+        self._tp = now
+
     def add_tlc(self, name, res):
         self.cov['states'] += res['distinct']
         self.cov['transitions'] += res['generated']
-        self.cov['tlc_runs'].append({'name': name, 'distinct_states': res['distinct'], 'states_generated': res['generated']})
+        self.cov['tlc_runs'].append({'name': name, 'distinct_states': res['distinct'], 'states_generated': res['generated'], 'wall_s': res.get('wall_s')})
 
     def sample(self, s):
         if len(self.cov['samples']) < 5:
